@@ -91,6 +91,10 @@ func Main(prop string) {
 				cases = append(cases, GenBytesCase(cr))
 				continue
 			}
+			if (prop == "C02" && i%20 == 3) || (prop != "C02" && i%30 == 7) {
+				cases = append(cases, GenDeadlineCase(cr))
+				continue
+			}
 			if prop == "C02" && i%20 == 17 {
 				cases = append(cases, GenBurstCase(cr))
 				continue
